@@ -5,6 +5,10 @@ import (
 	"fmt"
 	"sync"
 
+	"github.com/jotaen/klog/klog"
+	"github.com/jotaen/klog/klog/parser"
+	"github.com/jotaen/klog/klog/parser/txt"
+
 	"klogverif/docgen"
 	"klogverif/fw"
 	sm "klogverif/specmodel"
@@ -253,7 +257,8 @@ func init() {
 			"A case is one document text; non-trivial = classified valid or invalid by the reference (don't-care texts are counted separately); distinct by FNV-64 of the text.",
 		Assumptions: []string{
 			"specmodel.Parse (reference parser written from Specification.md; three-way cross-check against the generator's denotation on FA/FB)",
-			"don't-care zones (DESIGN §3.1): tab separators, blanks inside should-total parentheses, trailing blanks, integers > 10^9, CR inside a line, invalid UTF-8",
+			"don't-care zones (DESIGN §3.1): tab separators, blanks inside should-total parentheses, trailing blanks, integers > 10^9, invalid UTF-8 (a CR that is not part of CR LF is an ordinary non-blank character)",
+			"every document is parsed by the serial parser and by the parallel parser with 2 and 3 workers; each result is judged on its own",
 			"Unicode tables are Go's (shared with klog)",
 		},
 		Units: func(t fw.Tier) int { return len(planSpans(famSizes(c01Families(t)), c01Chunk)) },
@@ -297,46 +302,85 @@ func c01Text(c *fw.Ctx, fam string, idx int, text string, den []sm.Record, hasDe
 			harnessFatal("generator/specmodel disagree on the denotation of %s[%d] %q:\nspecmodel:\n%s\ngenerator:\n%s", fam, idx, text, a, b)
 		}
 	}
-	rs, bs, errs, panicked, pv, st := klogParse(text)
+	// leg 0: the serial parser; legs 1, 2: the parallel parser klog uses on machines with more than one CPU
+	// (2 and 3 workers; C07 compares the two parsers for every worker count, here each must itself be right)
+	for leg, n := range []int{1, 2, 3} {
+		var rs []klog.Record
+		var bs []txt.Block
+		var errs []txt.Error
+		var panicked bool
+		var pv any
+		var st string
+		suffix := ""
+		if leg == 0 {
+			rs, bs, errs, panicked, pv, st = klogParse(text)
+		} else {
+			if ref.Verdict == sm.Unspec {
+				return
+			}
+			suffix = fmt.Sprintf(":parallel%d", n)
+			mark, _ := json.Marshal(cs())
+			c.Mark(mark) // a panic inside a worker goroutine kills this process
+			panicked, pv, st = tryRun(func() { rs, bs, errs = parser.NewParallelParser(n).Parse(text) })
+			c.Mark(nil)
+		}
+		if !c01Judge(c, cs, suffix, text, ref, rs, bs, errs, panicked, pv, st) {
+			return
+		}
+	}
+}
+
+// c01Judge compares one parser's result with the reference verdict; false = a violation was reported.
+func c01Judge(c *fw.Ctx, cs func() famCase, suffix, text string, ref sm.Result, rs []klog.Record, bs []txt.Block, errs []txt.Error, panicked bool, pv any, st string) bool {
 	if panicked {
-		c.Violation("panic:"+fw.PanicSite(st), cs(), fmt.Sprintf("parser panicked: %v\n%s", pv, st))
-		return
+		c.Violation("panic:"+fw.PanicSite(st)+suffix, cs(), fmt.Sprintf("parser%s panicked: %v\n%s", suffix, pv, st))
+		return false
 	}
 	switch ref.Verdict {
 	case sm.Unspec:
 		c.Outcome("dont-care:" + ref.Rule)
-		return
+		return false
 	case sm.Valid:
-		c.NontrivialString(text)
+		if suffix == "" {
+			c.NontrivialString(text)
+		}
 		if len(errs) > 0 || (rs == nil && len(ref.Records) > 0) {
 			if ref.ZsBlank {
 				c.Violation("zs-blank-line-rejected", cs(), fmt.Sprintf("the text conforms to the specification (a line made only of Unicode space separators is a blank line) but was rejected: %s", errSummary(errs)))
-				return
+				return false
 			}
-			c.Violation("valid-rejected", cs(), fmt.Sprintf("the text conforms to the specification but was rejected: %s\nreference denotation:\n%s", errSummary(errs), canonRef(ref.Records)))
-			return
+			c.Violation("valid-rejected"+suffix, cs(), fmt.Sprintf("the text conforms to the specification but was rejected%s: %s\nreference denotation:\n%s", suffix, errSummary(errs), canonRef(ref.Records)))
+			return false
 		}
-		c.Outcome("valid")
+		if suffix == "" {
+			c.Outcome("valid")
+		}
 		if len(rs) != len(bs) {
-			c.Violation("records-blocks-arity", cs(), fmt.Sprintf("%d records but %d blocks", len(rs), len(bs)))
+			c.Violation("records-blocks-arity"+suffix, cs(), fmt.Sprintf("%d records but %d blocks", len(rs), len(bs)))
+			return false
 		}
 		var got string
 		if p, v, st := tryRun(func() { got = canonKlog(rs, ref.Records) }); p {
-			c.Violation("panic:accessor:"+fw.PanicSite(st), cs(), fmt.Sprintf("reading the records panicked: %v\n%s", v, st))
-			return
+			c.Violation("panic:accessor:"+fw.PanicSite(st)+suffix, cs(), fmt.Sprintf("reading the records panicked: %v\n%s", v, st))
+			return false
 		}
 		if want := canonRef(ref.Records); got != want {
-			c.Violation("denotation", cs(), fmt.Sprintf("records differ from what the text denotes.\nklog:\n%sreference:\n%s", got, want))
+			c.Violation("denotation"+suffix, cs(), fmt.Sprintf("records%s differ from what the text denotes.\nklog:\n%sreference:\n%s", suffix, got, want))
+			return false
 		}
 	case sm.Invalid:
-		c.NontrivialString(text)
-		c.Outcome("invalid:" + ref.Rule)
+		if suffix == "" {
+			c.NontrivialString(text)
+			c.Outcome("invalid:" + ref.Rule)
+		}
 		if len(errs) == 0 {
-			c.Violation("invalid-accepted", cs(), fmt.Sprintf("the text breaks a MUST rule (line %d: %s) but was accepted:\n%s", ref.Line, ref.Rule, canonKlog(rs, nil)))
-			return
+			c.Violation("invalid-accepted"+suffix, cs(), fmt.Sprintf("the text breaks a MUST rule (line %d: %s) but was accepted%s:\n%s", ref.Line, ref.Rule, suffix, canonKlog(rs, nil)))
+			return false
 		}
 		if rs != nil || bs != nil {
-			c.Violation("errors-and-records", cs(), "errors were returned together with records/blocks")
+			c.Violation("errors-and-records"+suffix, cs(), "errors were returned together with records/blocks")
+			return false
 		}
 	}
+	return true
 }
